@@ -11,8 +11,11 @@ abbrev Mem := Nat → Byte
 abbrev Sto := Word → Word
 
 /-- big-endian 32-byte word at `a` -/
-def Mem.readWord (m : Mem) (a : Nat) : Word :=
-  (List.range 32).foldl (fun acc i => (acc <<< 8) ||| (m (a + i)).setWidth 256) 0#256
+def Mem.readBytes (m : Mem) (a : Nat) : Nat → Word
+  | 0 => 0#256
+  | n + 1 => (Mem.readBytes m a n <<< 8) ||| (m (a + n)).setWidth 256
+
+def Mem.readWord (m : Mem) (a : Nat) : Word := m.readBytes a 32
 
 def wordByte (v : Word) (i : Nat) : Byte := (v >>> (8 * (31 - i))).setWidth 8
 
